@@ -13,7 +13,7 @@ use std::cmp::Ordering;
 use super::error::{Result, SvmError};
 use super::permutable_kernel::{PermutableKernel, PermutableKernelOneClass};
 use super::solver_smo::SolverState;
-use super::SolverParams;
+use super::{SeparatingHyperplane, SolverParams};
 use super::{Float, Svm, SvmValidParams};
 use linfa_kernel::Kernel;
 
@@ -157,6 +157,9 @@ pub fn fit_nu<F: Float>(
         .collect();
     res.rho /= r;
     res.obj /= r * r;
+    if let SeparatingHyperplane::Linear(ref mut hyperplane) = res.sep_hyperplane {
+        *hyperplane /= r;
+    }
 
     res
 }
